@@ -108,7 +108,7 @@ def run(ctx):
                           dict(kc[1], unchecked="correspondence model(g07)/implementation (%s)" % label), False,
                           "%d %s cases where model and implementation differ although the property predicate holds; smallest: %s"
                           % (len(mb), label, json.dumps(kc[1])[:300]))
-    if ob_failed and not ctx.violations and not ctx.known_hits:
+    if ob_failed and not ctx.violations:
         ctx.violation("obligation-unchecked", dict(unchecked=ob_failed), False, ob_failed[0][:300])
     elif ob_failed:
         ctx.notes.append({"unchecked_obligations": ob_failed})
